@@ -132,6 +132,12 @@ def _run_config(cfg, out, log):
         shutil.rmtree(out)
     os.makedirs(out)
     cwd = REPO if where == 'repo' else harness_dir()
+    if where != 'repo':
+        # the harness resolves its dependencies from the repository's own lockfile (offline)
+        try:
+            shutil.copy(os.path.join(REPO, 'Cargo.lock'), os.path.join(cwd, 'Cargo.lock'))
+        except OSError:
+            pass
     tdir = os.path.join(CACHE, 'target-' + where + ('' if REPO == '/repo' else '-' + hashlib.sha256(REPO.encode()).hexdigest()[:10]))
     # cargo's freshness cache would skip the driver: forget the crates we must re-export
     fp = os.path.join(tdir, 'debug', '.fingerprint')
